@@ -21,6 +21,7 @@ Global Instance NumR : Num R := {
   n_max := Rmax; n_min := Rmin; n_neg := Ropp; n_abs := Rabs;
   n_rint := fun x => IZR (ZnearestE x);
   n_cast := r_cast;
+  n_nan_to_num := fun x => x;
   n_eqb := fun x y => if Req_EM_T x y then true else false;
 }.
 
